@@ -17,6 +17,7 @@ import (
 )
 
 var registry = map[string]func(*rules.Ctx){
+	"C01": rules.C01,
 	"C02": rules.C02,
 	"C04": rules.C04,
 	"C05": rules.C05,
@@ -26,6 +27,7 @@ var registry = map[string]func(*rules.Ctx){
 	"C09": rules.C09,
 	"C10": rules.C10,
 	"C12": rules.C12,
+	"C13": rules.C13,
 	"C14": rules.C14,
 	"C15": rules.C15,
 	"C16": rules.C16,
